@@ -209,7 +209,20 @@ class Session(object):
 
     def w_delete(self):
         w, ps = self.pick_we()
-        return self.do("delete %d %s" % (w, brack([hx(p) for p in ps])))
+        probe = self.r.random() < 0.5
+        if probe:                       # a query, the deletion, the same query again (stale caches show here)
+            w2, ps2 = self.pick_we()
+            a2 = brack([hx(p) for p in ps2])
+            sw = self.r.choice(["010", "001", "110", "111"])
+            qs = ["pagelinks %d %s %s %s %s" % (w2, a2, sw[0], sw[1], sw[2]), "weout %d %s" % (w2, a2), "wein %d %s" % (w2, a2),
+                  "network 1 0 %s" % self.r.choice("01")]
+            for q in qs:
+                self.q(q)
+        r = self.do("delete %d %s" % (w, brack([hx(p) for p in ps])))
+        if probe:
+            for q in qs:
+                self.q(q)
+        return r
 
     def w_addprefix(self):
         w, _ = self.pick_we()
@@ -247,7 +260,13 @@ class Session(object):
     def w_reopen(self):
         if self.backend != "file":
             return None
-        return self.do("reopen %s %s" % (self.dflt, self.current_rules_arg()))
+        rules = self.current_rules_arg()
+        if self.r.random() < self.p.get("forget_rule", 0.0):
+            items = rules[1:-1].split(",") if len(rules) > 2 else []
+            if items:
+                items.pop(self.r.randrange(len(items)))
+                rules = "[" + ",".join(items) + "]"
+        return self.do("reopen %s %s" % (self.dflt, rules))
 
     def w_clear(self):
         x = self.r.random()
@@ -304,8 +323,9 @@ class Session(object):
 
     def r_mostlinked(self):
         w, ps = self.pick_we()
-        self.q("mostlinked %d %s %s %s" % (w, brack([hx(p) for p in ps]), self.r.choice(["1", "2", "3", "10"]),
-                                           self.r.choice(["-", "-", "0", "1", "2"])))
+        a = brack([hx(p) for p in ps])
+        for depth in self.r.sample(["-", "0", "1", "2", "3"], 2):
+            self.q("mostlinked %d %s %s %s" % (w, a, self.r.choice(["1", "2", "3", "10"]), depth))
 
     def r_hierarchy(self):
         w, ps = self.pick_we()
